@@ -375,6 +375,29 @@ def handleIO (op : String) (args : List String) (impl : Option (List String)) : 
         return (res, pv)
       | _ => return ("ERR open", impl.map fun i => i == ["ERR", "open"] || (Format.parse Sha.zckHash f).isNone)
     | none => return ("BADOP", none)
+  | "READSEQ", [path, sizes, ztab, _match] =>   -- marks set by zck_find_matching_chunks do not enter the reader model
+    let f ← readFile path
+    let tab ← loadZtab ztab
+    let D := mkDecomp tab
+    match parseNatList sizes with
+    | some sz =>
+      match Header.openFile Sha.zckHash f with
+      | .ok h =>
+        let (rets, out, c, ce) := runReadSeq Sha.zckHash D f sz.toArray 100000 (Reader.openCtx h) 0 0 (-1) #[] []
+        let cl := Reader.close Sha.zckHash c
+        let res := s!"OK rets={",".intercalate (rets.toList.map toString)} ce={ce} n={out.length} out={PredRead.showBytes out} close={if cl then 1 else 0}"
+        let pv := impl.map fun i =>
+          match i with
+          | "OK" :: rest =>
+            match (kv rest "rets").bind parseIntList, (kv rest "n").bind (·.toNat?), kv rest "out", kv rest "close" with
+            | some r, some n, some o, some cls =>
+              PredRead.c02_ok Sha.zckHash D f r o (cls == "1") && PredRead.c15_ok Sha.zckHash D f n o
+            | _, _, _, _ => false
+          | ["ERR", "open"] => true
+          | _ => false
+        return (res, pv)
+      | _ => return ("ERR open", impl.map fun i => i == ["ERR", "open"] || (Format.parse Sha.zckHash f).isNone)
+    | none => return ("BADOP", none)
   | "CHUNKSEQ", [path, reqs, ztab] =>
     let f ← readFile path
     let tab ← loadZtab ztab
@@ -659,6 +682,39 @@ def handleIO (op : String) (args : List String) (impl : Option (List String)) : 
           let missing := ((kv rest (pfx ++ "missing")).bind (·.toNat?)).getD 1
           let err := (kv rest (pfx ++ "err")).isSome || (kv rest "ub") != some "0"
           PredUpd.c04_ok Sha.zckHash aB bB t0 scanFl reqs vd missing err ta
+        | _ => false
+      return (out, pv)
+    | none => return ("BADOP", none)
+  | "UPDATE", [bpath, apath, tpath, maxr, frag, _kill, drop] =>
+    -- `<tpath>.before`: the target before the op; `<tpath>.killed`: the target at the kill point (if the kill fired)
+    let bB ← readFile bpath
+    let aB ← (do if apath == "-" then pure none else let x ← readFile apath; pure (some x))
+    let itoks := impl.getD []
+    let killed := itoks.any (·.startsWith "killed=")
+    let t0 ← readFile (if killed then tpath ++ ".killed" else tpath ++ ".before")
+    let ta ← (do if impl.isSome then readFile tpath else pure [])
+    let pfx := if killed then "r." else ""
+    match maxr.toInt? with
+    | some limit =>
+      let fr := if frag.startsWith "b" then (frag.drop 1).toString.toNat?.getD 0 else 0
+      let dr : Option (Nat × Nat) := match drop.splitOn ":" with
+        | [r, c] => (do some ((← r.toNat?), (← c.toNat?)))
+        | _ => none
+      let o := Update.update Sha.zckHash (mkRx itoks) aB bB t0 limit fr dr
+      let out := s!"OK {showUpd pfx o} len={o.file.length} ub=0 file={PredRead.showBytes o.file}"
+      let pv := impl.map fun i =>
+        match i with
+        | "OK" :: rest =>
+          let scanFl := match kv rest (pfx ++ "scan") with
+            | some s => (match s.splitOn ":" with | [_, fl] => flagsOf fl | _ => [])
+            | none => []
+          let reqs := match kv rest (pfx ++ "reqs") with
+            | some s => if s == "-" then [] else s.splitOn ";"
+            | none => []
+          let vd := (kv rest (pfx ++ "vd")).bind (·.toInt?)
+          let missing := ((kv rest (pfx ++ "missing")).bind (·.toNat?)).getD 1
+          let err := (kv rest (pfx ++ "err")).isSome || (kv rest "ub") != some "0"
+          PredUpd.c04_ok Sha.zckHash aB bB t0 scanFl reqs vd missing err ta dr.isNone
         | _ => false
       return (out, pv)
     | none => return ("BADOP", none)
